@@ -1,7 +1,7 @@
 (* Model/ExprTypes.v — the part of octosql/types.go that expressions need (C11, C08), on *kind sets*.
    Executable definitions only.
 
-   A static type is modelled by the set of top-level TypeIDs it admits ("kind set"), or Any:
+   A static type is modelled by the set of top-level TypeIDs it allows ("kind set"), or Any:
      octosql.Int                      ~ STSet [1]
      TypeSum(Int, Null)               ~ STSet [0;1]
      octosql.Any                      ~ STAny
@@ -9,7 +9,7 @@
    For types whose alternatives are all scalar (Null, Int, Float, Boolean, String, Time, Duration) this is
    exact: Is / TypeSum / TypeIntersection / NonNullable of types.go compute exactly the set operations below
    (each TypeID occurs at most once in a union, alternatives compare by TypeID only).  For types with a
-   List/Struct/Tuple alternative only the questions "does it admit NULL" (Null.Is(t)) and "which TypeIDs does a
+   List/Struct/Tuple alternative only the questions "does it allow NULL" (Null.Is(t)) and "which TypeIDs does a
    TypeAssertion accept" are exact; [sty_scalar] is the decidable fragment predicate used wherever more is needed.
    Another builder models the full type algebra (C10); this file deliberately does not depend on it. *)
 From Coq Require Export String.   (* before Values: List.length etc. must stay the visible names *)
@@ -68,7 +68,7 @@ Definition is_rel (t other : sty) : trel :=
 
 (* octosql.Null.Is(t) == TypeRelationIs : the test used by Materialize (nullCheckIndices), by the nullable
    wrap of strict calls and by And/Or typing.  Exact for every octosql type. *)
-Definition admits_null (t : sty) : bool := trel_eqb (is_rel (STSet [K_NULL]) t) Is.
+Definition allows_null (t : sty) : bool := trel_eqb (is_rel (STSet [K_NULL]) t) Is.
 
 (* NonNullable: only unions lose their Null alternative; plain Null stays Null. *)
 Definition non_nullable (t : sty) : sty :=
@@ -92,22 +92,34 @@ Definition type_sum (t1 t2 : sty) : sty :=
    so after the first match the pointee is overwritten by every later alternative of that loop: the result is
    the common alternatives PLUS the last alternative of the list in which the first match happened (unions are
    sorted by TypeID, so "last" is the largest TypeID).  Modelled as it is: a superset of the intersection when
-   t1 is a union; for Any on one side only the last alternative of the other side survives. *)
+   t1 is a union; for Any on one side only the last alternative of the other side survives.  Another builder's
+   fix copies the range variable; both behaviours are kept and the translator says which one the tree has. *)
 Definition kmax (l : list Z) : Z := fold_left Z.max l 0.
-Definition type_inter (t1 t2 : sty) : option sty :=
+Definition type_inter_pinned (t1 t2 : sty) : option sty :=
   match t1, t2 with
   | STAny, STAny => Some STAny
   | STAny, STSet b => match b with [] => None | _ => Some (STSet [kmax b]) end
   | STSet a, STAny => match a with [] => None | _ => Some (STSet [kmax a]) end
   | STSet a, STSet b => match kinter a b with [] => None | c => Some (STSet (kunion c [kmax a])) end
   end.
+(* with the range variable copied (`t := t`): the alternatives of either side that the other side allows *)
+Definition type_inter_exact (t1 t2 : sty) : option sty :=
+  match t1, t2 with
+  | STAny, STAny => Some STAny
+  | STAny, STSet b => match b with [] => None | _ => Some (STSet b) end
+  | STSet a, STAny => match a with [] => None | _ => Some (STSet a) end
+  | STSet a, STSet b => match kinter a b with [] => None | c => Some (STSet c) end
+  end.
+(* [aliasing] is probed by the translator on the tree under check (Gen/GenFunctions.v: type_inter_aliasing) *)
+Definition type_inter (aliasing : bool) (t1 t2 : sty) : option sty :=
+  if aliasing then type_inter_pinned t1 t2 else type_inter_exact t1 t2.
 
 (* Value.Type() for scalar values (a composite value's type has element types: outside the fragment) *)
 Definition value_scalar (v : value) : bool := k_scalar (tid v).
 Definition type_of_scalar (v : value) : sty := STSet [tid v].
 
 (* the judgement "runtime value v matches static type t", at the level this file models types:
-   the value's TypeID is one the type admits *)
+   the value's TypeID is one the type allows *)
 Definition has_type (v : value) (t : sty) : bool :=
   match t with STAny => true | STSet ks => kmem (tid v) ks end.
 
